@@ -233,7 +233,17 @@ func (e *Engine) binop(st *State, op token.Token, xt types.Type, a, b Value, yt 
 		}
 		panic(unsupported("int op " + op.String()))
 	case FloatV:
-		return e.floatOp(op, x, b.(FloatV))
+		r := e.floatOp(op, x, b.(FloatV))
+		if rf, ok := r.(FloatV); ok {
+			if bt, ok := under(xt).(*types.Basic); ok && bt.Kind() == types.Float32 {
+				// float32 arithmetic: the exact (or binary64) result rounded to
+				// float32; for + - * / of float32 operands rounding the
+				// binary64 result again is the correctly rounded float32 result
+				// (binary64 has more than 2*24+2 significand bits)
+				return round32(rf)
+			}
+		}
+		return r
 	case StrV:
 		y := b.(StrV)
 		switch op {
@@ -264,6 +274,52 @@ func (e *Engine) binop(st *State, op token.Token, xt types.Type, a, b Value, yt 
 		return Not(e.eqVal(a, b))
 	}
 	panic(unsupported(fmt.Sprintf("binop %s on %T", op, a)))
+}
+
+// round32 is float64(float32(x)) (a float32 is kept as the float64 it converts
+// to exactly). An integer of magnitude < 2^24 is exact in float32; a larger
+// exact-int value is rounded to the nearest multiple of 2^s (ties to even)
+// where 2^(23+s) <= |x| < 2^(24+s), in integer arithmetic.
+func round32(x FloatV) FloatV {
+	if x.FP != nil {
+		return FloatV{FP: FRound32(x.FP)}
+	}
+	if x.Sym == nil {
+		return concFloat(float64(float32(x.F)))
+	}
+	if x.Mag < 1<<24 {
+		return x
+	}
+	if fpMixed {
+		return FloatV{FP: FRound32(x.asFP())}
+	}
+	neg := ILt(x.Sym, IntC(0))
+	ax := Ite(neg, INeg(x.Sym), x.Sym)
+	res := ax // |x| < 2^24
+	var cases []*Term
+	var bounds []int64
+	top := int64(1) << 24
+	for s := uint(1); float64(top) <= x.Mag; s++ {
+		d := int64(1) << s
+		half := d / 2
+		r := IMod(ax, d)
+		odd := ILe(IntC(d), IMod(ax, 2*d))
+		up := Or(ILt(IntC(half), r), And(Eq(r, IntC(half)), odd))
+		cases = append(cases, IAdd(ISub(ax, r), Ite(up, IntC(d), IntC(0))))
+		bounds = append(bounds, top)
+		top <<= 1
+	}
+	for i := len(cases) - 1; i >= 0; i-- {
+		if i == len(cases)-1 {
+			res = cases[i]
+		} else {
+			res = Ite(ILt(ax, IntC(bounds[i+1])), cases[i], res)
+		}
+	}
+	if len(cases) > 0 {
+		res = Ite(ILt(ax, IntC(bounds[0])), ax, res)
+	}
+	return FloatV{Sym: Ite(neg, INeg(res), res), Mag: float64(top)}
 }
 
 func (e *Engine) floatOp(op token.Token, x, y FloatV) Value {
@@ -518,22 +574,7 @@ func (e *Engine) convert(st *State, from, to types.Type, v Value) Value {
 	case FloatV:
 		if isFloat(ut) {
 			if b := ut.(*types.Basic); b.Kind() == types.Float32 {
-				if x.FP != nil {
-					// (a float32 is kept as the float64 it converts to exactly)
-					return FloatV{FP: FRound32(x.FP)}
-				}
-				if x.Sym == nil {
-					return concFloat(float64(float32(x.F)))
-				}
-				// an integer of magnitude < 2^24 is exact in float32; beyond
-				// that the conversion rounds, which the exact-int
-				// representation cannot express
-				if x.Mag >= 1<<24 {
-					if fpMixed {
-						return FloatV{FP: FRound32(x.asFP())}
-					}
-					panic(unsupported("float32 of a symbolic integer-valued float of magnitude >= 2^24"))
-				}
+				return round32(x)
 			}
 			return x
 		}
